@@ -113,7 +113,7 @@ PROPS["C04"] = {
         K("SrtpPacket::parse (16 B, literal first octet)", "c04_srtp_packet_parse_16_literal_b0", "quick", "bounded", ["SrtpPacket::parse", "RtpHeader::parse"],
           "header fields recovered, padding bit kept for after decryption, body == everything after the 12-byte header",
           bound="16 bytes in a BytesMut; first octet V=2, X=0, CC=0 literal, P bit and everything else symbolic", timeout=900),
-        K("protect → SrtpPacket::parse → unprotect (real receive path, AES_CM, 2 B payload, 2 B padding)", "c04_full_roundtrip_via_parse_sha80_p2_pad2", "thorough", "bounded",
+        K("protect → SrtpPacket::parse → unprotect (real receive path, AES_CM, 2 B payload, 2 B padding)", "c04_full_roundtrip_via_parse_sha80_p2_pad2", "quick", "bounded",
           ["SrtpContext::protect", "SrtpPacket::parse", "SrtpContext::unprotect"],
           "the bytes protect wrote are parsed by the real SrtpPacket::parse and unprotected: header fields, payload, padding and index state come back",
           bound="12-byte header, 2 payload bytes, padding 2; fixed keys", timeout=1800),
